@@ -330,6 +330,10 @@ def run(prog: Program, col: Collector, tier: str, refs: Optional[Refs] = None, c
     # ---------------------------------------------------------------- R05.5
     col.rule("R05.5", "the reserved marker literal is used consistently", floor=4)
     _marker(prog, col, refs)
+
+    # ---------------------------------------------------------------- R05.6
+    from . import algebra
+    algebra.r_scope_extrusion(prog, col, refs, cat, "R05.6")
     return col
 
 
